@@ -148,7 +148,7 @@ def run_case(case):
     inconclusive = None
     if any(v["key"].startswith("not-terminated") for v in viol):
         # stable-stack rule: only a parked thread is a violation
-        parked = False
+        parked = bool(out.get("parked_threads"))
         for (a, al, dl, s) in taps.assoc_threads():
             for th in ([a] if al else []) + ([a.dul] if dl else []):
                 same, stack = taps.stable_block(th, 1.0)
